@@ -189,7 +189,7 @@ fn leaves(f: &From, db: &[Table], out: &mut Vec<(usize, usize)>, width: &mut usi
         }
         // a derived table written in the case itself (engine `sql` generates them; this engine's generator does not):
         // one opaque leaf
-        From::Derived(_, _, items) => {
+        From::Derived(_, _, items, _) => {
             out.push((super::sql::DERIVED_LEAF, *width));
             *width += items.len();
         }
@@ -366,7 +366,7 @@ fn sql_from_plain(f: &From, db: &[Table], next: &mut usize, col: &dyn Fn(usize) 
             *next += 1;
             s
         }
-        From::Derived(inner, w, items) => {
+        From::Derived(inner, w, items, _) => {
             let s = super::sql::sql_derived(inner, w, items, *next, db);
             *next += 1;
             s
@@ -526,7 +526,7 @@ fn sql_from_derived(
                         *next += 1;
                         s
                     }
-                    From::Derived(inner, w, items) => {
+                    From::Derived(inner, w, items, _) => {
                         let s = super::sql::sql_derived(inner, w, items, *next, db);
                         *next += 1;
                         s
@@ -649,6 +649,8 @@ pub fn dml_sql(s: &Stmt) -> String {
     let col = |i: usize| format!("c{}", i);
     match s {
         Stmt::Select(_) => String::new(),
+        // (engine `sql` prints these; the plan generators build no column lists)
+        Stmt::InsertX(..) => super::sql::sql_stmt(s, &[]),
         Stmt::Insert(t, rows) => {
             let rs: Vec<String> = rows
                 .iter()
@@ -1032,7 +1034,7 @@ pub fn run_case(line: &str, run_queries: bool) -> Outcome {
             outs.push("-".into());
             continue;
         }
-        let collects = batch.is_some() && early.sess.is_none() && matches!(op, Op::Stmt(Stmt::Insert(..) | Stmt::Update(..) | Stmt::Delete(..)));
+        let collects = batch.is_some() && early.sess.is_none() && matches!(op, Op::Stmt(Stmt::Insert(..) | Stmt::InsertX(..) | Stmt::Update(..) | Stmt::Delete(..)));
         if !collects {
             if let Some(stmts) = batch.take() {
                 flush_batch(&stmts, &mut early, late.as_mut(), &mut outs, &mut failed);
@@ -1048,7 +1050,7 @@ pub fn run_case(line: &str, run_queries: bool) -> Outcome {
                 outs.push("ok".into());
             }
             Op::EndBatch => outs.push("ok".into()),
-            Op::Stmt(s @ (Stmt::Insert(..) | Stmt::Update(..) | Stmt::Delete(..))) if collects => {
+            Op::Stmt(s @ (Stmt::Insert(..) | Stmt::InsertX(..) | Stmt::Update(..) | Stmt::Delete(..))) if collects => {
                 if let Some(b) = batch.as_mut() {
                     b.push((outs.len(), dml_sql(s)));
                 }
@@ -1102,7 +1104,7 @@ pub fn run_case(line: &str, run_queries: bool) -> Outcome {
                 }
                 outs.push(o);
             }
-            Op::Stmt(s @ (Stmt::Insert(..) | Stmt::Update(..) | Stmt::Delete(..))) => {
+            Op::Stmt(s @ (Stmt::Insert(..) | Stmt::InsertX(..) | Stmt::Update(..) | Stmt::Delete(..))) => {
                 let sql = dml_sql(s);
                 let a = canon_result(early.run(&sql), None);
                 let mut o = a.clone();
